@@ -295,6 +295,18 @@ class Sys(object):
             n += 1
         return r
 
+    def _chain_released(self, oid):
+        r = self.recs[oid]
+        n = 0
+        while n < 50:
+            if r.released:
+                return True
+            if r.kind != "gc":
+                return False
+            r = self.recs[r.target]
+            n += 1
+        return True
+
     def enabled(self):
         A = self.A
         if self.depth is not None and self.nops >= self.depth:
@@ -314,7 +326,10 @@ class Sys(object):
                 for dk in A["dk"]:
                     if dk == "cb" and bottom.kind == "alias":
                         continue          # a struct cdata cannot be passed to a 'void(void *)' function
-                    if dk == "fromh" and bottom.kind != "handle":
+                    if dk == "fromh" and k != "handle":
+                        # only directly on a handle: the wrapper then keeps the handle alive until its destructor
+                        # has run.  (Through a chain gc(gc(h)) the inner wrapper can be released first, the handle
+                        # die, and from_handle() in the outer destructor would be the caller's error.)
                         continue
                     if bottom.kind == "handle" and dk not in ("plain", "cycle", "fromh"):
                         continue
@@ -338,7 +353,8 @@ class Sys(object):
             if k == "fb" and A.get("tie") and r.src == "own" and not r.released and not r.tied:
                 ops.append(("tie", i))
             if fs is not None and A.get("buf") and k in ("fb", "gc", "news", "newa", "newp", "newq"):
-                if self._bottom(r.oid).kind != "alias":
+                # not on a struct, and not on a released object (a released wrapper of an 'int[]' has no length)
+                if self._bottom(r.oid).kind != "alias" and not self._chain_released(r.oid):
                     ops.append(("buf", i))
             ops.append(("drop", i))
             if A.get("drop_raise"):
